@@ -67,6 +67,23 @@ CLAIMED = {
          "Only those four feature sets are built.", "DESIGN.md 2/C20"),
 }
 
+# additions of round 7 (appended to the level text of the property; DESIGN.md 6.2 "Round 7")
+ROUND7 = {
+ "C01": " Round 7: frames on / next to every block-size code class (sizeclass); every stream is also emitted through MemSink<u64> and decoded independently if those bytes differ.",
+ "C02": " Round 7: metadata chains of 0..=6 added blocks (last-block flags, order, types, lengths, audio offset); sizeclass frames; pipe-style sources (short reads mid-stream) reproduce the known finding C02|frame.blocksize.fixed|short-read-source on every run while all other clauses stay judged.",
+ "C03": " Round 7: length hints that disagree with the delivery (partially read / exhausted library MemSource, biased hints) and byte containers wider than the sample width (refused = fine, emitted = judged).",
+ "C04": " Round 7: block-size arguments outside 32..=32767 (refused = fine, emitted = judged); pipe-style sources reproduce the known finding C04|min-block-gt-frame|short-read-source.",
+ "C05": " Round 7: 17 override strings incl. usize::MAX, 2^63, 2^32, 1025 (the worker count is clamped since fix 1fea44b).",
+ "C06": " Round 7: 'env' scenarios - 0-2 faults with the worker count taken from FLACENC_WORKERS (zero, unparsable, unservable values).",
+ "C07": " Round 7: worker counts 1025 / usize::MAX/2+1 / usize::MAX, block sizes on the frame header's code classes, and a full-block probe for block sizes above 1200.",
+ "C10": " Round 7: a monitor process that dies of an allocation failure whose request (>= 2 GiB) came from inside the library is a violation (allocation watcher, DESIGN 6.6).",
+ "C15": " Round 7: streams assembled with Stream::add_frame only (STREAMINFO as add_frame derived it, minimum block size below 16 after a short last block).",
+ "C17": " Round 7: invalid stream-level arguments with empty / 1 / 5-sample sources with and without a length hint; empty frame buffers; frame encode after FrameBuf::resize beyond the domain; Context without channels.",
+ "C18": " Round 7: StreamInfo setters at the field boundaries (16-bit block sizes, 24-bit frame sizes, 36-bit total); constructed metadata blocks inside a stream through the crate's parser.",
+ "C19": " Round 7: documents parsed straight into error::Verified<config::Encoder> (toml::Value::try_into, serde_json) must be accepted exactly when verification accepts the in-memory value.",
+ "C20": " Round 7: corpus cases with the library's MemSource over a sample vector holding a stray value.",
+}
+
 TODO_REASON = "monitor not built yet in this round (work in progress; will be claimed once its check exists)"
 
 ALL = ["C%02d" % i for i in range(1, 21)]
@@ -103,6 +120,7 @@ def main():
         if pid not in claimed:
             continue
         level, technique, text, note, ref = claimed[pid]
+        text += ROUND7.get(pid, "")
         q, t = passes(pid)
         if t:
             technique += "; sanitizer passes: quick [" + ", ".join(q) + "], thorough [" + ", ".join(t) + "]"
